@@ -185,7 +185,7 @@ package tree
 // whose last row is the mirrored contract's current root (index = deposit count - 1) yields exactly the contract's
 // frontier at every level the next append reads (the levels where the next index has a one bit).
 //@ func (t *AppendOnlyTree) initCache
-//@   props C01 C07
+//@   props C01 C07 C08
 //@   requires t != nil && t.Tree != nil
 //@   modifies t.lastIndex, t.lastLeftCache
 //@   ensures[failed-rebuild-leaves-frontier-untouched] result != nil ==> t.lastIndex == old(t.lastIndex) && t.lastLeftCache == old(t.lastLeftCache)
@@ -199,13 +199,13 @@ package tree
 //@   loop 1 unroll 1
 
 //@ func (t *AppendOnlyTree) AddLeaf$1
-//@   props C07 C01
+//@   props C07 C01 C08
 //@   requires t != nil
 //@   modifies t.lastIndex
 //@   ensures[undo-step] t.lastIndex == undoStep(old(t.lastIndex))
 
 //@ func (t *AppendOnlyTree) AddLeaf
-//@   props C01 C07
+//@   props C01 C07 C08
 //@   requires t != nil && t.Tree != nil && tx != nil
 //@   requires rhtOK(rhtHas(t.Tree), rhtL(t.Tree), rhtR(t.Tree))
 //@   requires len(t.zeroHashes) == 33 && forall(k, 0, 33, t.zeroHashes[k] == zeroAt(k))
